@@ -48,10 +48,7 @@ func (r *vRegistrant) lapsed() bool {
 // VerifEphemeral. arg: steps=<events>
 func VerifEphemeral(arg string) {
 	steps := vParam(arg, "steps", 4)
-	vNoSample() // natively the heartbeat is real time
-	if !vIsSymbolic() {
-		return
-	}
+	vNoSample() // natively the heartbeat is the real three-second ticker: completed paths are not compared
 	m := newEtcd()
 	e := &ETCD{cliv3: m}
 	ctx := context.Background()
@@ -79,16 +76,22 @@ func VerifEphemeral(arg string) {
 			vCover("registered", true)
 			vDrain() // let the keepalive goroutine start (it creates its ticker)
 			who.active, who.expiry, who.unregister = true, expiry, unregister
-			who.tick = vTickers[n]
+			if vIsSymbolic() {
+				who.tick = vTickers[n]
+			}
 			who.lease = m.kv[key].lease
 			who.ticked = true
 		case 1: // the registrant's heartbeat fires
 			if !who.active {
 				continue
 			}
-			select {
-			case who.tick <- time.Time{}:
-			default:
+			if vIsSymbolic() {
+				select {
+				case who.tick <- time.Time{}:
+				default:
+				}
+			} else {
+				time.Sleep(3100 * time.Millisecond) // natively: wait for the real ticker (heartbeat / 3)
 			}
 			who.ticked = true
 		case 2: // time passes (possibly longer than the TTL: a paused process)
